@@ -20,14 +20,16 @@
 (*   keys   set of positions whose key exists in the wallet                *)
 (*   used   subset of keys that has received funds                         *)
 (*   accts  set of [net, wt, acct] that exist                              *)
+(*   dflt   the default account                                            *)
 (* cfg: [net, wt, acct] the wallet was created with, ms (multisig wallet   *)
 (*      whose other cosigners are given as account public keys: one        *)
 (*      account, one witness type, one network), cos (own cosigner index), *)
 (*      watch (created from an account public key: no private key, one     *)
 (*      account, one witness type, one network).                           *)
 (*                                                                         *)
-(* An action is a public call  a = [op, net, wt, acct, ch, n, idx, form]    *)
-(* (form: how change and index were spelled, "path" | "args") with the     *)
+(* An action is a public call  a = [op, net, wt, acct, ch, n, idx, form,   *)
+(* acctin] (form: how change and index were spelled, "path" | "args";      *)
+(* acctin: the account is named in the "path" or by "arg"ument) with the   *)
 (* sequence `out` of positions of the keys it handed out:                  *)
 (*   new_keys      n fresh keys of a chain (new_key, new_key_change: n = 1)*)
 (*   get_keys      n unused keys of a chain, created where needed          *)
@@ -121,6 +123,7 @@ NextSet(s, c) == IF Idxs(s, c) = {} THEN {0} ELSE {MaxOf(Idxs(s, c)) + 1, Hole(I
 \* a new wallet holds the first receiving key of its account; a multisig wallet holds no key before the first request
 InitS(cfg) == [keys  |-> IF cfg.ms THEN {} ELSE {Pos(Chain(cfg.net, cfg.wt, cfg.acct, 0), 0)},
                used  |-> {},
+               dflt  |-> cfg.acct,          \* the account a request without account number refers to
                accts |-> {Acct(cfg.net, cfg.wt, cfg.acct)}]
 
 \* two networks of one wallet must not share a coin type: their keys and (where the address prefixes agree) their
@@ -185,6 +188,7 @@ After(cfg, s, a, out) ==
                      !.keys = @ \cup {Pos(Chain(x.net, x.wt, x.acct, 0), 0), Pos(Chain(x.net, x.wt, x.acct, 1), 0)}]
       [] a.op = "mark_used" -> [s EXCEPT !.used = @ \cup {Pos(c, a.idx)}]
       [] a.op = "export" -> [s EXCEPT !.accts = @ \cup {Acct(a.net, a.wt, a.acct)}]       \* the account key exists from now on
+      [] a.op = "set_default" -> [s EXCEPT !.dflt = a.acct]
       [] OTHER -> s
 
 
@@ -207,6 +211,10 @@ DevBulkChange == "bulk-created-keys-stored-with-change-0"
 \*    only account, counting indices over the (empty) account asked for - keys that were issued are issued again;
 \*  - DevClashServed: requests for keys (unlike new_account) are served for a network whose coin type another network
 \*    of the wallet already uses: the key lies at the other network's position and is labelled with the network asked for.
+\*  - DevPathAcct: keys created for a request that names the account in its path only (key_for_path([3, 0, 0]),
+\*    "m/84'/0'/3'/0/0", [3] with level_offset) are stored under the wallet's default account when that is not 0
+\*    (the path wins only over a default account 0): path and account column disagree.
+DevPathAcct    == "account-named-in-the-path-stored-as-default-account"
 DevWatchAcct   == "watch-only-wallet-ignores-the-account-of-a-request"
 DevClashServed == "keys-served-for-a-network-whose-coin-type-is-taken"
 DevMsColumns  == "multisig-keys-stored-with-change-and-index-of-the-call-arguments"
